@@ -567,7 +567,7 @@ func runFwRules(c *hx.Ctx, addrFocus bool) {
 	if addrFocus {
 		check = "Firewall_corr.check_c17"
 	}
-	cw := c.NewCaseWriter("From NV Require Import lib.Ip model.Firewall corr.Firewall_corr.", "Firewall_corr.case", check, 80)
+	cw := c.NewCaseWriter("From NV Require Import lib.Ip model.Firewall corr.Firewall_corr.", "Firewall_corr.case", check, 40)
 	type edgeCase struct {
 		rules []nebula.VerifFwRule
 		name  string
